@@ -7,8 +7,8 @@ queries and attribute reassignments on ONE instance and compare every answer wit
 
 Defects are recognised by a reference model of the defective behaviour (the ball taken on the array the neighbour tree
 was built from, an empty ball giving a float index array, the general selection branch rejecting an empty selection, ...).
-Only the defect that the unchanged library still shows (empty selection rejected by the OneDGrid / PeriodicGrid
-constructors) gets a ':known-<slug>' suffix; the repaired ones are reported as ordinary failures with a note.
+All of them have been repaired in the library, so none gets a ':known-<slug>' suffix any more (KNOWN_TODAY is empty):
+a change that brings one back is reported as an ordinary failure, with a note naming the earlier defect.
 """
 import itertools
 
@@ -356,11 +356,12 @@ def classify_query(st):
     return None
 
 
-# Defects that the unchanged library shows today: only these get the ':known-<slug>' suffix.  The other slugs that the
+# Defects that the unchanged library shows today: only these would get the ':known-<slug>' suffix.  Every defect that the
 # classification recognises (stale-tree, empty-ball, periodic-empty-ball, numpy-int-index, atomgrid-no-kdtree,
-# atomgrid-uncentred) were repaired in the library ("fix:" commits); if a change brings one of them back the failure is
-# reported as an ordinary violation, with a note in its detail.
-KNOWN_TODAY = {"empty-selection-onedgrid", "empty-selection-periodicgrid"}
+# atomgrid-uncentred, empty-selection-onedgrid, empty-selection-periodicgrid) has been repaired in the library ("fix:"
+# commits), so the set is empty: if a change brings one of them back the failure is reported as an ordinary violation,
+# with a note in its detail.
+KNOWN_TODAY = set()
 
 
 def mark_known(col, n_before, slug):
@@ -630,6 +631,33 @@ def interleaved_case(col, g, kind, rep, meta):
         mark_known(col, n0, classify_query(st))
 
 
+SHARED_KINDS = {"Grid1D": (Grid, 1), "Grid2D": (Grid, 2), "Grid3D": (Grid, 3), "OneDGrid": (OneDGrid, 1), "PeriodicGrid2D-novec": (PeriodicGrid, 2),
+                "GridSubclass3D": (PlainSubGrid, 3)}
+
+
+def shared_array_case(col, g, kind, rep, meta):
+    """Two instances built from the SAME points array: reassigning the points of one must leave the other one consistent."""
+    cls, dim = SHARED_KINDS[kind]
+    n = int(g.integers(6, 30))
+    base = g.normal(size=(n, dim)) * 2.0
+    base = np.sort(base.reshape(-1)) if dim == 1 else base
+    g1, g2 = cls(base, g.uniform(0.1, 1.0, n)), cls(base, g.uniform(0.1, 1.0, n))
+    st = {"kind": kind}
+
+    def chk():
+        for step, gr in enumerate((g1, g2, g1, g2, g1)):
+            if step == 2:
+                g1.points = new_points(g, np.array(g1.points, dtype=float), 1 + rep)
+            pts = np.array(gr.points, dtype=float)
+            c = centre_arg(near_node(g, pts), pts, step)
+            r = gap_radius(pts, c, max(1, n // 3))
+            ok, detail = do_query(gr, c, r, st)
+            if not ok:
+                return False, f"query {step} (instance {2 - (step + 1) % 2}; the points of instance 1 are reassigned before query 2): {detail}"
+        return True, None
+    col.check(f"shared-constructor-array:{kind}", chk, inputs=dict(meta, kind=kind, rep=rep), sample={"kind": kind})
+
+
 # ----------------------------------------------------------------------------------------------------------------------
 # selection
 # ----------------------------------------------------------------------------------------------------------------------
@@ -830,6 +858,11 @@ def group_interleaved(col, tier, seed, kinds=None):
         for rep in range(4 if tier == "quick" else 24):
             if kinds is None or kind in kinds:
                 interleaved_case(col, g, kind, rep, meta)
+    for kind in SHARED_KINDS:
+        g = rng(seed, f"C10-shared-{kind}")
+        for rep in range(4 if tier == "quick" else 24):
+            if kinds is None or kind in kinds:
+                shared_array_case(col, g, kind, rep, meta)
 
 
 def group_getitem(col, tier, seed, kinds=None, ikind=None):
@@ -844,7 +877,7 @@ RULE = ("real get_localgrid on plain 1/2/3-D, one-dimensional (plain and quadrat
         "brute-force ball oracle for radii {0 on/off node, 1e-12, one point, typical, all but one, huge, 1e200/1.7e308, inf, empty, integer}, exact closed "
         "ball on integer lattices, centre as float/NumPy scalar/0-d/int array; index array integer, unique, maps back, weights carried, parent "
         "untouched; histories (fixed patterns, all words over {query, empty query, inf query, set points, set weights} of length <= 3 (quick) / <= 5 (thorough), random words of <= 7 operations) of queries / point / weight "
-        "reassignments on one instance, interleaved instances; selection by Python/NumPy ints, slices, index arrays, masks (incl. empty) on Grid, "
+        "reassignments on one instance, interleaved instances, instances sharing the constructor array; selection by Python/NumPy ints, slices, index arrays, masks (incl. empty) on Grid, "
         "OneDGrid, PeriodicGrid with domain/lattice carried over and a query on the selection; distinct = (clause, grid kind, variant)")
 
 
@@ -924,7 +957,7 @@ def replay_case(case):
         group_localgrid(col, tier, seed, kinds=[kind], rclasses=[parts[2]] if len(parts) > 2 else None)
     elif parts[0] == "history":
         group_history(col, tier, seed, kinds=[kind])
-    elif parts[0] == "interleaved-instances":
+    elif parts[0] in ("interleaved-instances", "shared-constructor-array"):
         group_interleaved(col, tier, seed, kinds=[kind])
     elif parts[0] == "getitem":
         group_getitem(col, tier, seed, kinds=[kind])
